@@ -146,10 +146,10 @@ func (m *Multi) Clone() seq.Rower {
 
 // RevComp reverse complements the sequence.
 func (m *Multi) RevComp() {
-	end := m.End()
+	start, end := m.Start(), m.End()
 	for _, r := range m.Seq {
 		r.RevComp()
-		r.SetOffset(end - m.End())
+		r.SetOffset(start + end - r.End())
 	}
 
 	return
